@@ -1,6 +1,7 @@
 """C02 — canonicalize_url yields one canonical spelling and is idempotent (relational, no oracle)."""
 from pysx.lib import memo_call
 from ural.canonicalize_url import canonicalize_url
+from spec import url as U
 
 
 def canon(u, quoted, strip_fragment):
@@ -8,7 +9,12 @@ def canon(u, quoted, strip_fragment):
 
 
 def _c(u, quoted, strip_fragment):
-    """canonical form, or None when the input does not parse"""
+    """canonical form, or None when the input does not parse or is outside the grammar the property quantifies over"""
+    p = U.parse(u, "https")
+    if p is None:
+        return None           # the standard parser rejects it, or stray brackets outside one [literal]
+    if p[0].netloc == "" and p[0].path != "" and not p[0].path.startswith("/"):
+        return None           # no authority and a rootless path ('http//x.fr': ural reads a protocol where there is no ':')
     try:
         return memo_call(canon, u, quoted, strip_fragment)
     except ValueError:
@@ -44,7 +50,6 @@ def same_canonical(u, v, quoted, strip_fragment):
 
 
 # ---- signatures of known findings ------------------------------------------
-from spec import url as U
 
 
 def sig_whitespace_in_host(u, quoted, strip_fragment):
